@@ -11,32 +11,40 @@ open Risor.C13 (Path split joinSep cleanStr join2 isAbs)
 
 /-! ## Part B: relational induction over the state machine -/
 
-/-- what a relation between the state before and after must satisfy at statement level -/
-structure RelOK (R : St → St → Prop) : Prop where
+/-- what a relation between the state before and after must satisfy at statement level.
+    `Own st g`: "the executing VM may store into globals array `g`" — the array of the frame that
+    executes the statements and the arrays the VM has loaded (what a module function stores into,
+    `St.fnArray`); relations that do not care take `fun _ _ => True` (`anyArray`). -/
+structure RelOK (Own : St → Nat → Prop) (R : St → St → Prop) : Prop where
   refl : ∀ st, R st st
   trans : ∀ {a b c}, R a b → R b c → R a c
-  store : ∀ st g k v, R st (st.store g k v)
+  store : ∀ st g k v, Own st g → R st (st.store g k v)
   spawn : ∀ st st1 : St, R { st with spawns := st.spawns + 1, importing := [] } st1 →
     R st { st1 with cache := st.cache, loaded := st.loaded, importing := st.importing }
+  own_mono : ∀ {st st' : St} (g : Nat), R st st' → Own st g → Own st' g
+  own_fn : ∀ (st : St) (o g : Nat), st.fnArray o = some g → Own st g
 
-variable {R : St → St → Prop}
+def anyArray : St → Nat → Prop := fun _ _ => True
 
-theorem bindItems_rel (hR : RelOK R) (all : List (Path × Path)) (g : Nat) :
-    ∀ (items : List (Path × Path)) (ps : List Val) (st : St),
+variable {R : St → St → Prop} {Own : St → Nat → Prop}
+
+theorem bindItems_rel (hR : RelOK Own R) (all : List (Path × Path)) (g : Nat) :
+    ∀ (items : List (Path × Path)) (ps : List Val) (st : St), Own st g →
       R st (bindItems all g items ps st).1 := by
   intro items
   induction items with
-  | nil => intro ps st; simp only [bindItems]; exact hR.refl st
+  | nil => intro ps st _; simp only [bindItems]; exact hR.refl st
   | cons it rest ih =>
-    intro ps st
+    intro ps st hg
     cases ps with
     | nil => simp only [bindItems]; exact hR.refl st
     | cons v ps =>
       obtain ⟨nm, al⟩ := it
       simp only [bindItems]
-      exact hR.trans (hR.store st g _ v) (ih ps _)
+      have h1 := hR.store st g (aliasOf all nm) v hg
+      exact hR.trans h1 (ih ps _ (hR.own_mono g h1 hg))
 
-theorem fromOne_rel (hR : RelOK R) (imp : ImpFn) (himp : ∀ d st n, R st (imp d st n).2)
+theorem fromOne_rel (hR : RelOK Own R) (imp : ImpFn) (himp : ∀ d st n, R st (imp d st n).2)
     (env : Env) (depth : Nat) (parent nm : Path) (st : St) :
     R st (fromOne imp env depth parent nm st).2 := by
   simp only [fromOne]
@@ -51,7 +59,7 @@ theorem fromOne_rel (hR : RelOK R) (imp : ImpFn) (himp : ∀ d st n, R st (imp d
       · exact hR.trans h1 h2
     · exact hR.trans h1 h2
 
-theorem fromLoop_rel (hR : RelOK R) (imp : ImpFn) (himp : ∀ d st n, R st (imp d st n).2)
+theorem fromLoop_rel (hR : RelOK Own R) (imp : ImpFn) (himp : ∀ d st n, R st (imp d st n).2)
     (env : Env) (depth : Nat) (parent : Path) :
     ∀ (names : List Path) (st : St) (ps : List Val),
       R st (fromLoop imp env depth parent names st ps).2 := by
@@ -66,45 +74,47 @@ theorem fromLoop_rel (hR : RelOK R) (imp : ImpFn) (himp : ∀ d st n, R st (imp 
     · exact hR.trans h1 (ih _ _)
     · exact h1
 
-theorem execStmt_rel (hR : RelOK R) (imp : ImpFn) (himp : ∀ d st n, R st (imp d st n).2)
-    (env : Env) (g depth : Nat) (st : St) (s : Stmt) :
+theorem execStmt_rel (hR : RelOK Own R) (imp : ImpFn) (himp : ∀ d st n, R st (imp d st n).2)
+    (env : Env) (g depth : Nat) (st : St) (s : Stmt) (hg : Own st g) :
     R st (execStmt imp env g depth st s).2 := by
   cases s with
   | imp name alias =>
     simp only [execStmt]
     split
-    · exact hR.trans (himp depth st name) (hR.store _ g alias _)
+    · exact hR.trans (himp depth st name) (hR.store _ g alias _ (hR.own_mono g (himp depth st name) hg))
     · exact himp depth st name
   | fromImp parent items =>
     simp only [execStmt]
     have hl := fromLoop_rel hR imp himp env depth parent (items.map (·.1)).reverse st []
     split
-    · exact hR.trans hl (bindItems_rel hR items g items _ _)
+    · exact hR.trans hl (bindItems_rel hR items g items _ _ (hR.own_mono g hl hg))
     · exact hl
-  | set var val => simp only [execStmt]; exact hR.store st g var _
+  | set var val => simp only [execStmt]; exact hR.store st g var _ hg
   | setVia alias var val =>
     simp only [execStmt]
     split
     · split
-      · exact hR.store st _ var _
+      · rename_i hf; exact hR.store st _ var _ (hR.own_fn st _ _ hf)
       · exact hR.refl st
     · exact hR.refl st
   | addVia alias var k =>
     simp only [execStmt]
     split
     · split
-      · split
-        · exact hR.store st _ var _
+      · rename_i hf
+        split
+        · exact hR.store st _ var _ (hR.own_fn st _ _ hf)
         · exact hR.refl st
       · exact hR.refl st
     · exact hR.refl st
-  | newList var => simp only [execStmt]; exact hR.store st g var _
+  | newList var => simp only [execStmt]; exact hR.store st g var _ hg
   | pushVia alias var v =>
     simp only [execStmt]
     split
     · split
-      · split
-        · exact hR.store st _ var _
+      · rename_i hf
+        split
+        · exact hR.store st _ var _ (hR.own_fn st _ _ hf)
         · exact hR.refl st
       · exact hR.refl st
     · exact hR.refl st
@@ -119,24 +129,27 @@ theorem execStmt_rel (hR : RelOK R) (imp : ImpFn) (himp : ∀ d st n, R st (imp 
     split <;> exact h
   | fail => simp only [execStmt]; exact hR.refl st
 
-theorem execStmts_rel (hR : RelOK R) (imp : ImpFn) (himp : ∀ d st n, R st (imp d st n).2)
+theorem execStmts_rel (hR : RelOK Own R) (imp : ImpFn) (himp : ∀ d st n, R st (imp d st n).2)
     (env : Env) (g depth : Nat) :
-    ∀ (ss : List Stmt) (st : St), R st (execStmts imp env g depth ss st).2 := by
+    ∀ (ss : List Stmt) (st : St), Own st g → R st (execStmts imp env g depth ss st).2 := by
   intro ss
   induction ss with
-  | nil => intro st; simp only [execStmts]; exact hR.refl st
+  | nil => intro st _; simp only [execStmts]; exact hR.refl st
   | cons s rest ih =>
-    intro st
+    intro st hg
     simp only [execStmts]
-    have h := execStmt_rel hR imp himp env g depth st s
+    have h := execStmt_rel hR imp himp env g depth st s hg
     split
-    · exact hR.trans h (ih _)
+    · exact hR.trans h (ih _ (hR.own_mono g h hg))
     · exact h
 
 /-- what a relation must satisfy at the steps of `vm.importModule` (for the importer
     configured in `env`) -/
-structure ImpOK (env : Env) (R : St → St → Prop) : Prop where
-  rel : RelOK R
+structure ImpOK (env : Env) (Own : St → Nat → Prop) (R : St → St → Prop) : Prop where
+  rel : RelOK Own R
+  /-- a module body may store into the array its code is loaded with (the fields `St.enter`
+      changes — logs, `objs`, `importing` — do not matter) -/
+  own_body : ∀ (st : St) name c g, (c, g) ∈ st.loaded → Own (st.enter name g) g
   nofuel : ∀ (st : St) name, R st (({ st with nofuel := true } : St).fail name)
   refuse : ∀ (st : St) name, R st (st.refuse name)
   opens : ∀ (st : St) name, R st (st.noteOpens env name)
@@ -148,10 +161,12 @@ structure ImpOK (env : Env) (R : St → St → Prop) : Prop where
       array `gid`), evaluated, left, then cached -/
   bodyOk : ∀ (st3 st5 : St) name gid, st3.cache.lookup name = none → name ∉ st3.importing →
     (∃ c, (name, c) ∈ st3.compiled ∧ (c, gid) ∈ st3.loaded) →
+    (∃ c, st3.loaded.lookup c = some gid) →
     R (st3.enter name gid) st5 →
     R st3 (st5.leave.cacheAdd name st3.objs.length)
   bodyFail : ∀ (st3 st5 : St) name gid, st3.cache.lookup name = none → name ∉ st3.importing →
     (∃ c, (name, c) ∈ st3.compiled ∧ (c, gid) ∈ st3.loaded) →
+    (∃ c, st3.loaded.lookup c = some gid) →
     R (st3.enter name gid) st5 →
     R st3 (st5.leave.fail name)
 
@@ -189,6 +204,14 @@ theorem lookup_mem {κ α : Type} [BEq κ] [LawfulBEq κ] (l : List (κ × α)) 
       subst this; subst h; simp
     · exact List.mem_cons_of_mem _ (ih h)
 
+theorem loadCode_lookup (st : St) (c : Nat) : (st.loadCode c).loaded.lookup c = some (st.gidOf c) := by
+  unfold St.loadCode St.gidOf
+  split
+  · rename_i g hg
+    simp only [hg, Option.getD_some]
+  · rename_i hg
+    simp [hg, List.lookup]
+
 theorem loadCode_mem (st : St) (c : Nat) : (c, st.gidOf c) ∈ (st.loadCode c).loaded := by
   unfold St.loadCode St.gidOf
   split
@@ -209,7 +232,7 @@ theorem noteCompiled_mem (st : St) (env : Env) (n : Path) :
     exact lookup_mem _ _ _ hc
   · split <;> simp [St.codeOf, List.lookup]
 
-theorem importModule_rel {R : St → St → Prop} (env : Env) (hR : ImpOK env R) :
+theorem importModule_rel {R : St → St → Prop} {Own : St → Nat → Prop} (env : Env) (hR : ImpOK env Own R) :
     ∀ (fuel : Nat) (depth : Nat) (st : St) (name : Path),
       R st (importModule env fuel depth st name).2 := by
   intro fuel
@@ -249,6 +272,11 @@ theorem importModule_rel {R : St → St → Prop} (env : Env) (hR : ImpOK env R)
                 (((st.noteOpens env name).noteCompiled env name).loadCode
                   (((st.noteOpens env name).noteCompiled env name).codeOf name)).loaded :=
               ⟨_, by rw [loadCode_compiled]; exact noteCompiled_mem _ env name, loadCode_mem _ _⟩
+            have hlk : ∃ c, (((st.noteOpens env name).noteCompiled env name).loadCode
+                  (((st.noteOpens env name).noteCompiled env name).codeOf name)).loaded.lookup c =
+                some (((st.noteOpens env name).noteCompiled env name).gidOf
+                  (((st.noteOpens env name).noteCompiled env name).codeOf name)) :=
+              ⟨_, loadCode_lookup _ _⟩
             have hb := execStmts_rel hR.rel (importModule env fuel)
               (fun d s n => ih d s n) env
               (((st.noteOpens env name).noteCompiled env name).gidOf
@@ -257,15 +285,16 @@ theorem importModule_rel {R : St → St → Prop} (env : Env) (hR : ImpOK env R)
                 (((st.noteOpens env name).noteCompiled env name).codeOf name)).enter name
                 (((st.noteOpens env name).noteCompiled env name).gidOf
                   (((st.noteOpens env name).noteCompiled env name).codeOf name)))
+              (hR.own_body _ name _ _ (loadCode_mem _ _))
             split
-            · exact hrel.trans h13 (hR.bodyOk _ _ name _ hc hi hm hb)
-            · exact hrel.trans h13 (hR.bodyFail _ _ name _ hc hi hm hb)
+            · exact hrel.trans h13 (hR.bodyOk _ _ name _ hc hi hm hlk hb)
+            · exact hrel.trans h13 (hR.bodyFail _ _ name _ hc hi hm hlk hb)
 
 /-- a whole evaluation: the script's statements with the real import function -/
-theorem run_rel {R : St → St → Prop} (env : Env) (hR : ImpOK env R) (fuel : Nat)
-    (main : List Stmt) : R St.init (run env fuel main).2 := by
+theorem run_rel {R : St → St → Prop} {Own : St → Nat → Prop} (env : Env) (hR : ImpOK env Own R) (fuel : Nat)
+    (main : List Stmt) (h0 : Own St.init 0) : R St.init (run env fuel main).2 := by
   unfold run
-  exact execStmts_rel hR.rel _ (fun d s n => importModule_rel env hR fuel d s n) env 0 0 main St.init
+  exact execStmts_rel hR.rel _ (fun d s n => importModule_rel env hR fuel d s n) env 0 0 main St.init h0
 
 end Risor.C14
 
@@ -301,11 +330,13 @@ theorem not_clean_fail (st : St) (n : Path) : ¬ Clean (st.fail n) := by
   have := h.1
   simp [St.fail] at this
 
-theorem R2_relOK : RelOK R2 where
+theorem R2_relOK : RelOK anyArray R2 where
+  own_mono := fun _ _ _ => trivial
+  own_fn := fun _ _ _ _ => trivial
   refl := fun _ => ⟨rfl, fun h => h, fun _ h => h⟩
   trans := fun h1 h2 => ⟨h2.1.trans h1.1, fun hc => h1.2.1 (h2.2.1 hc),
     fun hc hj => h2.2.2 hc (h1.2.2 (h2.2.1 hc) hj)⟩
-  store := fun _ _ _ _ => ⟨rfl, fun h => h, fun _ h => h⟩
+  store := fun _ _ _ _ _ => ⟨rfl, fun h => h, fun _ h => h⟩
   spawn := by
     intro st st1 h
     have hfalse : Clean { st1 with cache := st.cache, loaded := st.loaded, importing := st.importing } → False := by
@@ -314,8 +345,9 @@ theorem R2_relOK : RelOK R2 where
       simp at this
     exact ⟨rfl, fun hc => (hfalse hc).elim, fun hc => (hfalse hc).elim⟩
 
-theorem R2_impOK (env : Env) : ImpOK env R2 where
+theorem R2_impOK (env : Env) : ImpOK env anyArray R2 where
   rel := R2_relOK
+  own_body := fun _ _ _ _ _ => trivial
   nofuel := fun st n => ⟨rfl, fun h => (not_clean_fail _ n h).elim, fun h => (not_clean_fail _ n h).elim⟩
   refuse := fun _ _ => ⟨rfl, fun h => h, fun _ h => h⟩
   opens := by
@@ -340,12 +372,12 @@ theorem R2_impOK (env : Env) : ImpOK env R2 where
     · exact ⟨rfl, fun h => h, fun _ h => h⟩
   overflow := fun st n => ⟨rfl, fun h => (not_clean_fail _ n h).elim, fun h => (not_clean_fail _ n h).elim⟩
   bodyFail := by
-    intro st3 st5 n gid _ _ _ hb
+    intro st3 st5 n gid _ _ _ _ hb
     refine ⟨?_, fun h => (not_clean_fail _ n h).elim, fun h => (not_clean_fail _ n h).elim⟩
     show st5.importing.tail = st3.importing
     rw [hb.1]; rfl
   bodyOk := by
-    intro st3 st5 name gid hmiss hni _ hb
+    intro st3 st5 name gid hmiss hni _ _ hb
     have himp5 : st5.importing = name :: st3.importing := hb.1
     have hc4 : Clean (st5.leave.cacheAdd name st3.objs.length) → Clean (st3.enter name gid) := fun hc => hb.2.1 hc
     have hc3 : Clean (st3.enter name gid) → Clean st3 := fun hc => hc
@@ -478,10 +510,12 @@ theorem K_enter (st : St) (n : Path) (g : Nat)
   · obtain ⟨c, hc1, hc2⟩ := hm
     exact ⟨c, hc1, h3 _ hc2⟩
 
-theorem R3_relOK : RelOK R3 where
+theorem R3_relOK : RelOK anyArray R3 where
+  own_mono := fun _ _ _ => trivial
+  own_fn := fun _ _ _ _ => trivial
   refl := fun _ => ⟨fun _ h => h, fun h => h, fun h => h⟩
   trans := fun h1 h2 => ⟨fun p hp => h2.1 p (h1.1 p hp), fun h => h2.2.1 (h1.2.1 h), fun h => h2.2.2 (h1.2.2 h)⟩
-  store := fun st g k v => ⟨fun _ h => h, K_store st g k v, fun h => h⟩
+  store := fun st g k v _ => ⟨fun _ h => h, K_store st g k v, fun h => h⟩
   spawn := by
     intro st st1 h
     refine ⟨fun p hp => h.1 p hp, ?_, fun ho => h.2.2 ho⟩
@@ -489,8 +523,9 @@ theorem R3_relOK : RelOK R3 where
     obtain ⟨k1, k2, k3, k4, k5⟩ := h.2.1 hk
     exact ⟨k1, k2, fun p hp => h.1 p (hk.2.2.1 p hp), k4, k5⟩
 
-theorem R3_impOK (env : Env) : ImpOK env R3 where
+theorem R3_impOK (env : Env) : ImpOK env anyArray R3 where
   rel := R3_relOK
+  own_body := fun _ _ _ _ _ => trivial
   nofuel := fun _ _ => ⟨fun _ h => h, fun h => h, fun h => h⟩
   refuse := fun _ _ => ⟨fun _ h => h, fun h => h, fun h => h⟩
   opens := by
@@ -520,7 +555,7 @@ theorem R3_impOK (env : Env) : ImpOK env R3 where
       split <;> exact fun h => h
   overflow := fun _ _ => ⟨fun _ h => h, fun h => h, fun h => h⟩
   bodyOk := by
-    intro st3 st5 name gid _ _ hm hb
+    intro st3 st5 name gid _ _ hm _ hb
     refine ⟨fun p hp => hb.1 p hp, fun hk => hb.2.1 (K_enter st3 name gid hm hk), ?_⟩
     intro ho
     have : OT (st3.enter name gid) := by
@@ -528,7 +563,7 @@ theorem R3_impOK (env : Env) : ImpOK env R3 where
       rw [ho]
     exact hb.2.2 this
   bodyFail := by
-    intro st3 st5 name gid _ _ hm hb
+    intro st3 st5 name gid _ _ hm _ hb
     refine ⟨fun p hp => hb.1 p hp, fun hk => hb.2.1 (K_enter st3 name gid hm hk), ?_⟩
     intro ho
     have : OT (st3.enter name gid) := by
@@ -590,14 +625,17 @@ theorem ImporterInv_noteOpens (st : St) (env : Env) (n : Path) (h : ImporterInv 
 
 def R4 (st st' : St) : Prop := ImporterInv st → ImporterInv st'
 
-theorem R4_relOK : RelOK R4 where
+theorem R4_relOK : RelOK anyArray R4 where
+  own_mono := fun _ _ _ => trivial
+  own_fn := fun _ _ _ _ => trivial
   refl := fun _ h => h
   trans := fun h1 h2 h => h2 (h1 h)
-  store := fun _ _ _ _ h => h
+  store := fun _ _ _ _ _ h => h
   spawn := fun _ _ h hi => h hi
 
-theorem R4_impOK (env : Env) (hl : LocalImporter env) : ImpOK env R4 where
+theorem R4_impOK (env : Env) (hl : LocalImporter env) : ImpOK env anyArray R4 where
   rel := R4_relOK
+  own_body := fun _ _ _ _ _ => trivial
   nofuel := fun _ _ h => h
   refuse := fun _ _ h => h
   opens := fun st n h => ImporterInv_noteOpens st env n h
@@ -607,8 +645,502 @@ theorem R4_impOK (env : Env) (hl : LocalImporter env) : ImpOK env R4 where
     unfold St.loadCode
     split <;> exact h
   overflow := fun _ _ h => h
-  bodyOk := fun _ _ _ _ _ _ _ hb h => hb h
-  bodyFail := fun _ _ _ _ _ _ _ hb h => hb h
+  bodyOk := fun _ _ _ _ _ _ _ _ hb h => hb h
+  bodyFail := fun _ _ _ _ _ _ _ _ hb h => hb h
+
+end Risor.C14
+
+namespace Risor.C14
+open Risor.C13 (Path)
+
+theorem getElem?_modifyAt_ne {α : Type} (f : α → α) (n m : Nat) (l : List α) (h : m ≠ n) :
+    (modifyAt f n l)[m]? = l[m]? := by
+  induction l generalizing n m with
+  | nil => cases n <;> rfl
+  | cons x xs ih =>
+    cases n with
+    | zero =>
+      cases m with
+      | zero => exact absurd rfl h
+      | succ m => simp [modifyAt]
+    | succ n =>
+      cases m with
+      | zero => simp [modifyAt]
+      | succ m => simp only [modifyAt, List.getElem?_cons_succ]; exact ih n m (by omega)
+
+/-! ### Instance 4: sessions — what one VM's step does to the shared state -/
+
+/-- the arrays a VM may store into: its script's array `m` and the arrays it has loaded -/
+def OwnM (m : Nat) (st : St) (g : Nat) : Prop := g = m ∨ ∃ c, (c, g) ∈ st.loaded
+
+/-- the invariant of one VM (registers loaded into `st`) over the shared state: every array any VM
+    created exists; the VM's loaded arrays are recorded with their code; for every module the VM
+    has imported, the array the module object is bound to is the array the VM has loaded for the
+    module's code (attribute view = function view) -/
+def W (st : St) : Prop :=
+  (∀ p ∈ st.owner, p.2 < st.heap.length) ∧
+  (∀ p ∈ st.loaded, p ∈ st.owner) ∧
+  (∀ c g, st.loaded.lookup c = some g → st.codeOfGid g = some c) ∧
+  (∀ p ∈ st.cache, ∃ nm g c, st.objs[p.2]? = some (nm, g) ∧ st.loaded.lookup c = some g)
+
+structure R5 (m : Nat) (st st' : St) : Prop where
+  objs : ∃ ext, st'.objs = st.objs ++ ext
+  heap : st.heap.length ≤ st'.heap.length
+  keep : ∀ c g, st.loaded.lookup c = some g → st'.loaded.lookup c = some g
+  keepm : ∀ p ∈ st.loaded, p ∈ st'.loaded
+  fresh : ∀ p ∈ st'.loaded, p ∈ st.loaded ∨ st.heap.length ≤ p.2
+  newc : ∀ p ∈ st'.cache, p ∈ st.cache ∨ st.objs.length ≤ p.2
+  own : ∀ p ∈ st.owner, p ∈ st'.owner
+  stable : ∀ g, g < st.heap.length → st'.codeOfGid g = st.codeOfGid g
+  w : W st → W st'
+  frame : ∀ g, g < st.heap.length → ¬ OwnM m st g → st'.globals g = st.globals g
+
+theorem W_congr {a b : St} (h1 : b.owner = a.owner) (h2 : b.heap.length = a.heap.length)
+    (h3 : b.loaded = a.loaded) (h4 : b.cache = a.cache) (h5 : b.objs = a.objs) (h : W a) : W b := by
+  unfold W St.codeOfGid at *
+  rw [h1, h2, h3, h4, h5]
+  exact h
+
+/-- a step that changes neither objects, arrays, registers nor the ownership log -/
+theorem R5_same (m : Nat) {a b : St} (h1 : b.owner = a.owner) (h2 : b.heap = a.heap)
+    (h3 : b.loaded = a.loaded) (h4 : b.cache = a.cache) (h5 : b.objs = a.objs) : R5 m a b where
+  objs := ⟨[], by simp [h5]⟩
+  heap := by rw [h2]; exact Nat.le_refl _
+  keep := by intro c g h; rw [h3]; exact h
+  keepm := by intro p h; rw [h3]; exact h
+  fresh := by intro p h; rw [h3] at h; exact Or.inl h
+  newc := by intro p h; rw [h4] at h; exact Or.inl h
+  own := by intro p h; rw [h1]; exact h
+  stable := by intro g _; unfold St.codeOfGid; rw [h1]
+  w := W_congr h1 (by rw [h2]) h3 h4 h5
+  frame := by intro g _ _; unfold St.globals; rw [h2]
+
+theorem R5_refl (m : Nat) (st : St) : R5 m st st := R5_same m rfl rfl rfl rfl rfl
+
+theorem R5_trans (m : Nat) {a b c : St} (h1 : R5 m a b) (h2 : R5 m b c) : R5 m a c where
+  objs := by
+    obtain ⟨e1, he1⟩ := h1.objs
+    obtain ⟨e2, he2⟩ := h2.objs
+    exact ⟨e1 ++ e2, by rw [he2, he1, List.append_assoc]⟩
+  heap := Nat.le_trans h1.heap h2.heap
+  keep := fun c g h => h2.keep c g (h1.keep c g h)
+  keepm := fun p h => h2.keepm p (h1.keepm p h)
+  fresh := by
+    intro p hp
+    rcases h2.fresh p hp with h | h
+    · exact h1.fresh p h
+    · exact Or.inr (Nat.le_trans h1.heap h)
+  newc := by
+    intro p hp
+    rcases h2.newc p hp with h | h
+    · exact h1.newc p h
+    · right
+      obtain ⟨e1, he1⟩ := h1.objs
+      have : a.objs.length ≤ b.objs.length := by rw [he1]; simp
+      omega
+  own := fun p h => h2.own p (h1.own p h)
+  stable := by
+    intro g hg
+    rw [h2.stable g (Nat.lt_of_lt_of_le hg h1.heap), h1.stable g hg]
+  w := fun h => h2.w (h1.w h)
+  frame := by
+    intro g hg hno
+    have hb : ¬ OwnM m b g := by
+      intro ho
+      rcases ho with ho | ⟨c', hc'⟩
+      · exact hno (Or.inl ho)
+      · rcases h1.fresh _ hc' with h | h
+        · exact hno (Or.inr ⟨c', h⟩)
+        · simp only at h; omega
+    rw [h2.frame g (Nat.lt_of_lt_of_le hg h1.heap) hb, h1.frame g hg hno]
+
+theorem W_store (st : St) (g : Nat) (k : Path) (v : Val) (h : W st) : W (st.store g k v) :=
+  W_congr (a := st) (b := st.store g k v) rfl (by simp [St.store, length_modifyAt]) rfl rfl rfl h
+
+theorem R5_store (m : Nat) (st : St) (g : Nat) (k : Path) (v : Val) (hg : OwnM m st g) :
+    R5 m st (st.store g k v) where
+  objs := ⟨[], by simp [St.store]⟩
+  heap := by simp [St.store, length_modifyAt]
+  keep := fun _ _ h => h
+  keepm := fun _ h => h
+  fresh := fun _ h => Or.inl h
+  newc := fun _ h => Or.inl h
+  own := fun _ h => h
+  stable := fun _ _ => rfl
+  w := W_store st g k v
+  frame := by
+    intro g' _ hno
+    have hne : g' ≠ g := by intro e; subst e; exact hno hg
+    simp only [St.store, St.globals]
+    rw [getElem?_modifyAt_ne _ _ _ _ hne]
+
+theorem lookup_mem_nat {α : Type} (l : List (Nat × α)) (k : Nat) (v : α)
+    (h : l.lookup k = some v) : (k, v) ∈ l := lookup_mem l k v h
+
+theorem fnArray_loaded (st : St) (o g : Nat) (h : st.fnArray o = some g) : ∃ c, (c, g) ∈ st.loaded := by
+  unfold St.fnArray at h
+  split at h
+  · split at h
+    · rename_i c _
+      exact ⟨c, lookup_mem _ _ _ h⟩
+    · cases h
+  · cases h
+
+theorem R5_spawn (m : Nat) (st st1 : St)
+    (h : R5 m { st with spawns := st.spawns + 1, importing := [] } st1) :
+    R5 m st { st1 with cache := st.cache, loaded := st.loaded, importing := st.importing } where
+  objs := h.objs
+  heap := h.heap
+  keep := fun _ _ hl => hl
+  keepm := fun _ hl => hl
+  fresh := fun _ hl => Or.inl hl
+  newc := fun _ hl => Or.inl hl
+  own := h.own
+  stable := h.stable
+  w := by
+    intro hw
+    have hw0 : W { st with spawns := st.spawns + 1, importing := [] } := hw
+    obtain ⟨b1, _, _, _⟩ := h.w hw0
+    obtain ⟨b0, l0, v0, c0⟩ := hw
+    refine ⟨b1, ?_, ?_, ?_⟩
+    · intro p hp; exact h.own p (l0 p hp)
+    · intro c g hl
+      have hg : g < st.heap.length := b0 _ (l0 _ (lookup_mem _ _ _ hl))
+      show st1.codeOfGid g = some c
+      rw [h.stable g hg]
+      exact v0 c g hl
+    · intro p hp
+      obtain ⟨nm, g, c, ho, hl⟩ := c0 p hp
+      obtain ⟨ext, he⟩ := h.objs
+      refine ⟨nm, g, c, ?_, hl⟩
+      show st1.objs[p.2]? = some (nm, g)
+      rw [he, List.getElem?_append_left (by
+        have := List.getElem?_eq_some_iff.1 ho
+        obtain ⟨hlt, _⟩ := this
+        exact hlt)]
+      exact ho
+  frame := h.frame
+
+theorem R5_relOK (m : Nat) : RelOK (OwnM m) (R5 m) where
+  refl := R5_refl m
+  trans := fun h1 h2 => R5_trans m h1 h2
+  store := fun st g k v hg => R5_store m st g k v hg
+  spawn := R5_spawn m
+  own_mono := by
+    intro st st' g h ho
+    rcases ho with ho | ⟨c, hc⟩
+    · exact Or.inl ho
+    · exact Or.inr ⟨c, h.keepm _ hc⟩
+  own_fn := fun st o g h => Or.inr (fnArray_loaded st o g h)
+
+theorem getElem?_lt_of_some {α : Type} {l : List α} {i : Nat} {a : α} (h : l[i]? = some a) : i < l.length :=
+  (List.getElem?_eq_some_iff.1 h).1
+
+theorem lookup_cons_ne {α : Type} (l : List (Nat × α)) (k k' : Nat) (v : α) (h : k ≠ k') :
+    ((k', v) :: l).lookup k = l.lookup k := by
+  have : (k == k') = false := by simpa using h
+  simp [List.lookup, this]
+
+theorem codeOfGid_cons_ne (st : St) (c g g' : Nat) (h : g' ≠ g) :
+    ({ st with owner := (c, g) :: st.owner } : St).codeOfGid g' = st.codeOfGid g' := by
+  unfold St.codeOfGid
+  have : ((c, g).2 == g') = false := by simp; exact fun e => h e.symm
+  simp [List.find?, this]
+
+theorem W_loadCode (st : St) (c : Nat) (h : W st) : W (st.loadCode c) := by
+  unfold St.loadCode
+  split
+  · exact h
+  · rename_i hmiss
+    obtain ⟨b, l, v, ca⟩ := h
+    refine ⟨?_, ?_, ?_, ?_⟩
+    · intro p hp
+      simp only [List.mem_cons, List.length_append, List.length_cons, List.length_nil] at hp ⊢
+      rcases hp with rfl | hp
+      · simp
+      · have := b p hp; omega
+    · intro p hp
+      simp only [List.mem_cons] at hp ⊢
+      rcases hp with rfl | hp
+      · exact Or.inl rfl
+      · exact Or.inr (l p hp)
+    · intro c' g hl
+      by_cases hc : c' = c
+      · subst hc
+        simp only [List.lookup, beq_self_eq_true] at hl
+        cases hl
+        simp [St.codeOfGid, List.find?]
+      · rw [lookup_cons_ne _ _ _ _ hc] at hl
+        have hg : g < st.heap.length := b _ (l _ (lookup_mem _ _ _ hl))
+        have := codeOfGid_cons_ne st c st.heap.length g (by omega)
+        simp only [St.codeOfGid] at this ⊢
+        rw [this]
+        exact v c' g hl
+    · intro p hp
+      obtain ⟨nm, g, c', ho, hl⟩ := ca p hp
+      refine ⟨nm, g, c', ho, ?_⟩
+      have hc : c' ≠ c := by intro e; subst e; rw [hmiss] at hl; cases hl
+      show ((c, st.heap.length) :: st.loaded).lookup c' = some g
+      rw [lookup_cons_ne _ _ _ _ hc]; exact hl
+
+theorem R5_loadCode (m : Nat) (st : St) (c : Nat) : R5 m st (st.loadCode c) := by
+  by_cases hl : st.loaded.lookup c = none
+  · have e : st.loadCode c = ({ st with loaded := (c, st.heap.length) :: st.loaded, owner := (c, st.heap.length) :: st.owner, heap := st.heap ++ [[]] } : St) := by
+      unfold St.loadCode; rw [hl]
+    refine ⟨?_, ?_, ?_, ?_, ?_, ?_, ?_, ?_, W_loadCode st c, ?_⟩
+    · exact ⟨[], by rw [e]; simp⟩
+    · rw [e]; simp
+    · intro c' g h
+      rw [e]
+      have hc : c' ≠ c := by intro e'; subst e'; rw [hl] at h; cases h
+      show ((c, st.heap.length) :: st.loaded).lookup c' = some g
+      rw [lookup_cons_ne _ _ _ _ hc]; exact h
+    · intro p hp; rw [e]; exact List.mem_cons_of_mem _ hp
+    · intro p hp
+      rw [e] at hp
+      simp only [List.mem_cons] at hp
+      rcases hp with rfl | hp
+      · exact Or.inr (Nat.le_refl _)
+      · exact Or.inl hp
+    · intro p hp; rw [e] at hp; exact Or.inl hp
+    · intro p hp; rw [e]; exact List.mem_cons_of_mem _ hp
+    · intro g hg
+      rw [e]
+      have := codeOfGid_cons_ne st c st.heap.length g (by omega)
+      simp only [St.codeOfGid] at this ⊢
+      exact this
+    · intro g hg _
+      rw [e]
+      simp only [St.globals]
+      rw [List.getElem?_append_left hg]
+  · have e : st.loadCode c = st := by
+      unfold St.loadCode
+      cases h : st.loaded.lookup c with
+      | none => exact absurd h hl
+      | some g => rfl
+    rw [e]; exact R5_refl m st
+
+theorem W_enter (st : St) (name : Path) (gid : Nat) (h : W st) : W (st.enter name gid) := by
+  obtain ⟨b, l, v, ca⟩ := h
+  refine ⟨b, l, v, ?_⟩
+  intro p hp
+  obtain ⟨nm, g, c, ho, hl⟩ := ca p hp
+  refine ⟨nm, g, c, ?_, hl⟩
+  show (st.objs ++ [(name, gid)])[p.2]? = some (nm, g)
+  rw [List.getElem?_append_left (getElem?_lt_of_some ho)]; exact ho
+
+/-- after the body: the deferred restore, then `vm.modules[name] = module` / the failure log -/
+theorem R5_body (m : Nat) (st3 st5 : St) (name : Path) (gid : Nat) (cacheIt : Bool)
+    (hlk : ∃ c, st3.loaded.lookup c = some gid) (hb : R5 m (st3.enter name gid) st5) :
+    R5 m st3 (if cacheIt then st5.leave.cacheAdd name st3.objs.length else st5.leave.fail name) := by
+  obtain ⟨ext, he⟩ := hb.objs
+  have he' : st5.objs = st3.objs ++ ((name, gid) :: ext) := by
+    rw [he]; show (st3.objs ++ [(name, gid)]) ++ ext = _; simp
+  have hidx : st5.objs[st3.objs.length]? = some (name, gid) := by rw [he']; simp
+  have hw5 : W st3 → W st5 := fun hw => hb.w (W_enter st3 name gid hw)
+  cases cacheIt with
+  | false =>
+    simp only [Bool.false_eq_true, ↓reduceIte]
+    refine ⟨⟨_, he'⟩, hb.heap, hb.keep, hb.keepm, hb.fresh, ?_, hb.own, hb.stable, ?_, hb.frame⟩
+    · intro p hp
+      rcases hb.newc p hp with h | h
+      · exact Or.inl h
+      · right
+        have : (st3.enter name gid).objs.length = st3.objs.length + 1 := by simp [St.enter]
+        omega
+    · intro hw
+      exact W_congr (a := st5) (b := st5.leave.fail name) rfl rfl rfl rfl rfl (hw5 hw)
+  | true =>
+    simp only [↓reduceIte]
+    refine ⟨⟨_, he'⟩, hb.heap, hb.keep, hb.keepm, hb.fresh, ?_, hb.own, hb.stable, ?_, hb.frame⟩
+    · intro p hp
+      simp only [St.cacheAdd, St.leave, List.mem_cons] at hp
+      rcases hp with rfl | hp
+      · exact Or.inr (Nat.le_refl _)
+      · rcases hb.newc p hp with h | h
+        · exact Or.inl h
+        · right
+          have : (st3.enter name gid).objs.length = st3.objs.length + 1 := by simp [St.enter]
+          omega
+    · intro hw
+      obtain ⟨b, l, v, ca⟩ := hw5 hw
+      refine ⟨b, l, v, ?_⟩
+      intro p hp
+      simp only [St.cacheAdd, St.leave, List.mem_cons] at hp
+      rcases hp with rfl | hp
+      · obtain ⟨c, hc⟩ := hlk
+        exact ⟨name, gid, c, hidx, hb.keep c gid hc⟩
+      · exact ca p hp
+
+theorem R5_impOK (env : Env) (m : Nat) : ImpOK env (OwnM m) (R5 m) where
+  rel := R5_relOK m
+  own_body := fun _ _ c _ h => Or.inr ⟨c, h⟩
+  nofuel := fun _ _ => R5_same m rfl rfl rfl rfl rfl
+  refuse := fun _ _ => R5_same m rfl rfl rfl rfl rfl
+  opens := by
+    intro st n
+    unfold St.noteOpens
+    split <;> exact R5_same m rfl rfl rfl rfl rfl
+  compiled := by
+    intro st n
+    unfold St.noteCompiled
+    split
+    · exact R5_refl m st
+    · split <;> exact R5_same m rfl rfl rfl rfl rfl
+  load := R5_loadCode m
+  overflow := fun _ _ => R5_same m rfl rfl rfl rfl rfl
+  bodyOk := fun st3 st5 name gid _ _ _ hlk hb => R5_body m st3 st5 name gid true hlk hb
+  bodyFail := fun st3 st5 name gid _ _ _ hlk hb => R5_body m st3 st5 name gid false hlk hb
+
+/-! ### sessions: the invariant over all VMs -/
+
+structure SInv (n : Nat) (s : Sess) : Prop where
+  len : s.vms.length = n
+  heap : n ≤ s.sh.heap.length
+  main : ∀ (i : Nat) (v : VM), s.vms[i]? = some v → v.main = i
+  w : ∀ v ∈ s.vms, W (s.sh.withVM v)
+  low : ∀ v ∈ s.vms, ∀ p ∈ v.loaded, n ≤ p.2
+  disj : ∀ (i j : Nat) (vi vj : VM), i ≠ j → s.vms[i]? = some vi → s.vms[j]? = some vj →
+    (∀ p ∈ vi.loaded, ∀ q ∈ vj.loaded, p.2 ≠ q.2) ∧ (∀ p ∈ vi.cache, ∀ q ∈ vj.cache, p.2 ≠ q.2)
+
+theorem SInv_init (n : Nat) : SInv n (Sess.init n) where
+  len := by simp [Sess.init]
+  heap := by simp [Sess.init]
+  main := by
+    intro i v h
+    simp only [Sess.init, List.getElem?_map] at h
+    cases hr : (List.range n)[i]? with
+    | none => simp [hr] at h
+    | some e =>
+      simp only [hr, Option.map_some, Option.some.injEq] at h
+      have := List.getElem?_eq_some_iff.1 hr
+      obtain ⟨_, he⟩ := this
+      simp at he
+      subst h; exact he.symm
+  w := by
+    intro v hv
+    simp only [Sess.init, List.mem_map] at hv
+    obtain ⟨e, _, rfl⟩ := hv
+    refine ⟨?_, ?_, ?_, ?_⟩ <;> simp [Sess.init, St.withVM, St.init]
+  low := by
+    intro v hv
+    simp only [Sess.init, List.mem_map] at hv
+    obtain ⟨e, _, rfl⟩ := hv
+    simp
+  disj := by
+    intro i j vi vj _ hi hj
+    have hi' := List.mem_of_getElem? hi
+    have hj' := List.mem_of_getElem? hj
+    simp only [Sess.init, List.mem_map] at hi' hj'
+    obtain ⟨_, _, rfl⟩ := hi'
+    obtain ⟨_, _, rfl⟩ := hj'
+    simp
+
+/-- another VM's invariant survives a step of the executing VM -/
+theorem W_other (m : Nat) (st0 st' : St) (hR : R5 m st0 st') (hw0 : W st0) (u : VM)
+    (hu : W (st0.withVM u)) : W (st'.withVM u) := by
+  obtain ⟨b', _, _, _⟩ := hR.w hw0
+  obtain ⟨b, l, v, ca⟩ := hu
+  refine ⟨b', ?_, ?_, ?_⟩
+  · intro p hp; exact hR.own p (l p hp)
+  · intro c g hl
+    have hg : g < st0.heap.length := b _ (l _ (lookup_mem _ _ _ hl))
+    show st'.codeOfGid g = some c
+    rw [hR.stable g hg]
+    exact v c g hl
+  · intro p hp
+    obtain ⟨nm, g, c, ho, hl⟩ := ca p hp
+    obtain ⟨ext, he⟩ := hR.objs
+    have ho' : st0.objs[p.2]? = some (nm, g) := ho
+    refine ⟨nm, g, c, ?_, hl⟩
+    show st'.objs[p.2]? = some (nm, g)
+    rw [he, List.getElem?_append_left (getElem?_lt_of_some ho')]
+    exact ho'
+
+/-- one step of a session keeps the invariant, for any import function that respects `R5` -/
+theorem SInv_step (imp : ImpFn) (himp : ∀ m d st nm, R5 m st (imp d st nm).2) (env : Env) (n : Nat)
+    (s : Sess) (e : Nat) (stmt : Stmt) (h : SInv n s) : SInv n (sessStep imp env s e stmt) := by
+  unfold sessStep
+  split
+  · exact h
+  · rename_i v hv
+    split
+    · have hvm : v ∈ s.vms := List.mem_of_getElem? hv
+      have hR : R5 v.main (s.sh.withVM v) (execStmt imp env v.main 0 (s.sh.withVM v) stmt).2 :=
+        execStmt_rel (R5_relOK v.main) imp (himp v.main) env v.main 0 _ stmt (Or.inl rfl)
+      generalize (execStmt imp env v.main 0 (s.sh.withVM v) stmt) = r at hR
+      have hw0 : W (s.sh.withVM v) := h.w v hvm
+      have hw' : W r.2 := hR.w hw0
+      have hlt : e < s.vms.length := getElem?_lt_of_some hv
+      refine ⟨?_, ?_, ?_, ?_, ?_, ?_⟩
+      · simp [h.len]
+      · exact Nat.le_trans h.heap hR.heap
+      · intro i u hu
+        by_cases hie : e = i
+        · subst hie
+          rw [List.getElem?_set_self hlt] at hu
+          cases hu
+          exact h.main e v hv
+        · rw [List.getElem?_set_ne hie] at hu
+          exact h.main i u hu
+      · intro u hu
+        rcases List.mem_or_eq_of_mem_set hu with hu | rfl
+        · exact W_other v.main _ _ hR hw0 u (h.w u hu)
+        · exact W_congr (a := r.2) rfl rfl rfl rfl rfl hw'
+      · intro u hu p hp
+        rcases List.mem_or_eq_of_mem_set hu with hu | rfl
+        · exact h.low u hu p hp
+        · rcases hR.fresh p hp with hp | hp
+          · exact h.low v hvm p hp
+          · exact Nat.le_trans h.heap hp
+      · -- the executing VM against another one
+        have one : ∀ j vj, e ≠ j → s.vms[j]? = some vj →
+            (∀ p ∈ r.2.loaded, ∀ q ∈ vj.loaded, p.2 ≠ q.2) ∧ (∀ p ∈ r.2.cache, ∀ q ∈ vj.cache, p.2 ≠ q.2) := by
+          intro j vj hej hj
+          have hd := h.disj e j v vj hej hv hj
+          obtain ⟨bj, lj, _, cj⟩ := h.w vj (List.mem_of_getElem? hj)
+          refine ⟨?_, ?_⟩
+          · intro p hp q hq
+            rcases hR.fresh p hp with hp | hp
+            · exact hd.1 p hp q hq
+            · have : q.2 < s.sh.heap.length := bj q (lj q hq)
+              have hp' : s.sh.heap.length ≤ p.2 := hp
+              omega
+          · intro p hp q hq
+            rcases hR.newc p hp with hp | hp
+            · exact hd.2 p hp q hq
+            · obtain ⟨_, _, _, ho, _⟩ := cj q hq
+              have : q.2 < s.sh.objs.length := getElem?_lt_of_some ho
+              have hp' : s.sh.objs.length ≤ p.2 := hp
+              omega
+        intro i j vi vj hij hi hj
+        by_cases hie : e = i
+        · subst hie
+          rw [List.getElem?_set_self hlt] at hi
+          cases hi
+          rw [List.getElem?_set_ne hij] at hj
+          exact one j vj hij hj
+        · rw [List.getElem?_set_ne hie] at hi
+          by_cases hje : e = j
+          · subst hje
+            rw [List.getElem?_set_self hlt] at hj
+            cases hj
+            have := one i vi hie hi
+            exact ⟨fun p hp q hq => (this.1 q hq p hp).symm, fun p hp q hq => (this.2 q hq p hp).symm⟩
+          · rw [List.getElem?_set_ne hje] at hj
+            exact h.disj i j vi vj hij hi hj
+    · exact h
+
+theorem SInv_run (imp : ImpFn) (himp : ∀ m d st nm, R5 m st (imp d st nm).2) (env : Env) (n : Nat)
+    (sched : List (Nat × Stmt)) : SInv n (sessRun imp env n sched) := by
+  unfold sessRun
+  have key : ∀ (sched : List (Nat × Stmt)) (s : Sess), SInv n s →
+      SInv n (sched.foldl (fun s p => sessStep imp env s p.1 p.2) s) := by
+    intro sched
+    induction sched with
+    | nil => intro s h; exact h
+    | cons p rest ih => intro s h; exact ih _ (SInv_step imp himp env n s p.1 p.2 h)
+  exact key sched _ (SInv_init n)
 
 end Risor.C14
 
